@@ -51,7 +51,7 @@ func main() {
 	maxDepth := flag.Int("max-depth", 2000, "call depth limit")
 	out := flag.String("out", "", "JSON result file (default stdout)")
 	solver := flag.String("solver", "z3-new", "z3 | z3-new | cvc5")
-	solverMs := flag.Int("solver-ms", 10000, "per-query timeout in ms")
+	solverMs := flag.Int("solver-ms", 30000, "per-query timeout in ms")
 	sample := flag.Int("sample-every", 0, "record a model for every k-th path")
 	overlay := flag.String("overlay", "", "JSON file {virtual path: real path} of source overlays")
 	tags := flag.String("tags", "", "build tags")
